@@ -1,6 +1,7 @@
 (* C05 - the property theorems, nothing else.  Each is closed by [exact] of a lemma from
    Lemmas.v and followed by Print Assumptions.  [New] is the model of cfdm's equals with the
-   repairs C05-fix-1..5; Refuted.v holds the witnesses against the code as it was. *)
+   repairs C05-fix-1..5 (in /repo) and C05-fix2-1..2; [Mid] is the code without the latter two;
+   Refuted.v holds the witnesses against the code as it was. *)
 From CfdmV Require Import Common.Base C05.Model C05.Lemmas.
 From Coq Require Import Permutation.
 Open Scope Z_scope.
@@ -36,23 +37,27 @@ Theorem C05_matching_sound :
 Proof. exact greedy_sound. Qed.
 Print Assumptions C05_matching_sound.
 
-(* Totality: with every option combination, comparing anything with anything returns True or
-   False ([Some (Ok _)]) or is outside the model ([None]: ignore_type between classes whose
-   conversion is not modelled) - it never raises.  Guard [wf_total]: the cell methods of the
-   other field have at most one interval or a single axis (full statement: "no fewer
-   intervals than axes"; see C05_total_unguarded_refuted). *)
+(* Totality, unguarded: with every option combination, comparing anything with anything
+   returns True or False ([Some (Ok _)]) or is outside the model ([None]: ignore_type between
+   classes whose conversion is not modelled) - it never raises.  (The indices that
+   CellMethod.sorted uses are proved to be positions in the axes of the cell method.) *)
 Theorem C05_total :
-  forall o x y, wf_total y ->
-  match top_eq New o x y with Some (Err _) => False | _ => True end.
+  forall o x y, match top_eq New o x y with Some (Err _) => False | _ => True end.
 Proof. exact top_eq_total. Qed.
 Print Assumptions C05_total.
 
-(* Without the guard the statement is false of the faithful model: CellMethod.sorted indexes
-   the intervals by axis position (open finding). *)
-Theorem C05_total_unguarded_refuted :
-  exists o x y, top_eq New o x y = Some (Err IndexErr).
-Proof. exact total_unguarded_refuted. Qed.
-Print Assumptions C05_total_unguarded_refuted.
+(* Before C05-fix2-1 the statement was false: CellMethod.sorted indexed the intervals by axis
+   position (IndexError for fewer intervals than axes) and dropped surplus intervals (a field
+   unequal to its own copy). *)
+Theorem C05_mid_short_intervals_refuted :
+  exists o x, top_eq Mid o x x = Some (Err IndexErr) /\ top_eq New o x x = Some (Ok true).
+Proof. exact mid_short_intervals_refuted. Qed.
+Print Assumptions C05_mid_short_intervals_refuted.
+
+Theorem C05_mid_surplus_intervals_refuted :
+  exists o x, top_eq Mid o x x = Some (Ok false) /\ top_eq New o x x = Some (Ok true).
+Proof. exact mid_surplus_intervals_refuted. Qed.
+Print Assumptions C05_mid_surplus_intervals_refuted.
 
 (* A construct with data equals any structurally identical construct (its copy), for every
    option set with non-negative tolerances. *)
@@ -157,24 +162,74 @@ Theorem C05_data_axes_one_to_one :
 Proof. exact data_axes_one_to_one. Qed.
 Print Assumptions C05_data_axes_one_to_one.
 
-(* Key-blindness and order-blindness of whole fields are NOT theorems of the faithful model
-   (open findings): *)
-Theorem C05_key_blind_unspanned_axis_refuted :
-  exists o x y y', top_eq New o x y = Some (Ok true) /\ top_eq New o x y' = Some (Ok false).
-Proof. exact key_blind_unspanned_axis_refuted. Qed.
-Print Assumptions C05_key_blind_unspanned_axis_refuted.
+(* Whole fields and domains.  Reflexivity / copy-equality: a field (properties, data, data
+   axes, domain axes, metadata constructs, cell methods, coordinate references) equals every
+   structurally identical field, for every option set with non-negative tolerances.
+   Guard [wf_field]: names in each dictionary are unique (properties, qualifiers, parameters)
+   and no cell method names the same axis twice. *)
+Theorem C05_copy_field :
+  forall o x, opts_ok o -> wf_field x -> field_eq New o x x = Some (Ok true).
+Proof. exact field_copy_equal. Qed.
+Print Assumptions C05_copy_field.
 
+(* Key-blindness: renaming the domain axis keys (ra), the keys of the constructs with data (rk)
+   and the keys of cell methods and coordinate references (ro: any function at all) of the
+   other field, consistently in every place where a key is used (construct axes, data axes, cell
+   method axes, coordinate reference coordinates and domain-ancillary terms), never changes the
+   answer - True, False alike.  Exact guards: the renamings are injective;
+   [cms_names_fixed]: a cell method axis that is not a domain axis key of the field (a standard
+   name) is left alone; [crs_refs_ok]: a key named by a coordinate reference that is not a
+   construct of the field (a dangling reference, compared by name) is left alone. *)
+Theorem C05_key_blind_field :
+  forall ra rk ro o x y, inj ra -> inj rk -> cms_names_fixed ra y -> crs_refs_ok rk y ->
+  field_eq New o x (ren_field ra rk ro y) = field_eq New o x y.
+Proof. exact field_key_blind. Qed.
+Print Assumptions C05_key_blind_field.
+
+(* ... hence a field equals every key-renamed copy of itself. *)
+Theorem C05_equals_renamed_copy :
+  forall ra rk ro o x, opts_ok o -> wf_field x -> inj ra -> inj rk ->
+  cms_names_fixed ra x -> crs_refs_ok rk x ->
+  field_eq New o x (ren_field ra rk ro x) = Some (Ok true).
+Proof. exact field_equals_renamed_copy. Qed.
+Print Assumptions C05_equals_renamed_copy.
+
+(* Before C05-fix2-2 key-blindness was false for a cell method over a domain axis that no data
+   span (the keys of such axes were compared as if they were standard names). *)
+Theorem C05_mid_key_blind_unspanned_axis_refuted :
+  exists o x y y', top_eq Mid o x y = Some (Ok true) /\ top_eq Mid o x y' = Some (Ok false) /\
+                   top_eq New o x y' = Some (Ok true).
+Proof. exact mid_key_blind_unspanned_axis_refuted. Qed.
+Print Assumptions C05_mid_key_blind_unspanned_axis_refuted.
+
+(* Insertion order, the part that holds unconditionally: the order in which the domain axis
+   constructs of the other field were inserted plays no part (their keys are unique, as in a
+   dictionary). *)
+Theorem C05_axes_order_blind_field :
+  forall o x y ax', NoDup (keys (f_axes y)) -> Permutation (f_axes y) ax' ->
+  field_eq New o x (set_axes y ax') = field_eq New o x y.
+Proof. exact field_axes_order_blind. Qed.
+Print Assumptions C05_axes_order_blind_field.
+
+(* Order-blindness of whole fields is NOT a theorem of the faithful model (open finding
+   twin-axes-order): two domain axes carrying indistinguishable construct sets are paired in
+   insertion order.  Full statement, not proved at field level (proved for the matching itself,
+   C05_matching_order_blind): "if no two axes tuples of the same length of either field carry
+   construct sets that match each other, permuting f_cons / f_axes / f_crs of either operand
+   does not change the answer". *)
 Theorem C05_order_blind_twin_axes_refuted :
   exists o x y y', top_eq New o x y = Some (Ok true) /\ top_eq New o x y' = Some (Ok false).
 Proof. exact order_blind_twin_axes_refuted. Qed.
 Print Assumptions C05_order_blind_twin_axes_refuted.
 
-(* Non-vacuity: the hypotheses used above are met by concrete constructs / fields. *)
+(* Non-vacuity: the hypotheses used above are met by concrete constructs / fields (a field with
+   a cell method over a domain axis that no data span, and one over two spanned axes). *)
 Theorem C05_examples :
-  opts_ok C05.Refuted.o0 /\ wf_cons C05.Refuted.lat /\ wf_total (TField C05.Refuted.base) /\
+  opts_ok C05.Refuted.o0 /\ wf_cons C05.Refuted.lat /\ wf_field base_cm /\
   exact (mkO (Some (0, 1)) (Some (0, 1)) false false IPNone true false) /\
+  inj pre /\ cms_names_fixed pre base_cm /\ crs_refs_ok pre base_cm /\
   cons_eq New C05.Refuted.o0 C05.Refuted.lat C05.Refuted.lat = Some (Ok true) /\
-  top_eq New C05.Refuted.o0 (TField C05.Refuted.base) (TField C05.Refuted.base) = Some (Ok true) /\
-  constructs_eq New C05.Refuted.o0 C05.Refuted.base C05.Refuted.base = Ok true.
+  top_eq New C05.Refuted.o0 (TField base_cm) (TField base_cm) = Some (Ok true) /\
+  top_eq New C05.Refuted.o0 (TField base_cm) (TField (ren_field pre pre pre base_cm)) = Some (Ok true).
 Proof. exact examples_nonvacuous. Qed.
 Print Assumptions C05_examples.
